@@ -194,6 +194,11 @@ def byte_samples():
     s.append(('utf-8', '\ufeff#c,"\na,é\n#d'))
     s.append(('latin-1', '\xef\xbb\xbf#c\na,\xe9\n'))
     s.append(('utf-8', '\ufeff//c\n/,//\n//'))
+    # a BOM in front of the only line, which has no terminator (header-only or single-record files), also quoted and empty
+    s.append(('utf-8', '\ufeffa,b'))
+    s.append(('utf-8', '\ufeff"x,y",z'))
+    s.append(('latin-1', '\xef\xbb\xbfq'))
+    s.append(('utf-8', '\ufeff'))
     return s
 
 
